@@ -41,9 +41,9 @@ def shards(tier):
         k = max(0, min(n, n - 3))  # shard by prefix so that shards hold <= 8 targets
         out += [{'kind': 'plain', 'n': n, 'pre': ''.join(pre)} for pre in itertools.product(ALPHA, repeat=k)]
     for n in range(1, d['Lm'] + 1):
-        out += [{'kind': 'mod', 'n': n, 'pre': a} for a in ALPHA]
+        out += [{'kind': 'mod', 'n': n, 'pre': ''.join(t)} for t in itertools.product(ALPHA, repeat=n)]   # one target per shard
         if n >= 2:
-            out += [{'kind': 'iv', 'n': n, 'pre': a} for a in ALPHA]
+            out += [{'kind': 'iv', 'n': n, 'pre': ''.join(t)} for t in itertools.product(ALPHA, repeat=n)]
         out += [{'kind': 'glob', 'n': n, 'pre': a} for a in ALPHA]
         out += [{'kind': 'unordered', 'n': n, 'pre': ''.join(t), 'tm0': m0}
                 for t in itertools.product(ALPHA, repeat=n) for m0 in (0, 1, 2)]
